@@ -699,6 +699,18 @@ func (m *Machine) exec(th *Thread, f *Frame, instr ssa.Instruction) {
 	case *ssa.BinOp:
 		f.env[in] = m.binop(in.Op, m.get(f, in.X), m.get(f, in.Y), in.X.Type(), in.Y.Type())
 	case *ssa.UnOp:
+		if in.Op == token.ARROW {
+			// a channel receive: the engine has no channel values that ever become ready, so a
+			// spawned goroutine parks here for good (it simply never continues); the main thread of
+			// a harness may not
+			if th.id == 0 {
+				panic(m.unsupported("channel receive on the harness's main thread"))
+			}
+			m.note("a goroutine parked forever on a channel receive")
+			th.stack = nil
+			th.done = true
+			return
+		}
 		f.env[in] = m.unop(in, m.get(f, in.X))
 	case *ssa.Call:
 		m.doCall(th, f, &in.Call, in)
@@ -864,13 +876,25 @@ func (m *Machine) exec(th *Thread, f *Frame, instr ssa.Instruction) {
 	case *ssa.SliceToArrayPointer:
 		f.env[in] = m.sliceToArrayPtr(m.get(f, in.X), in.Type())
 	case *ssa.Store:
+		if bc, isCell := m.get(f, in.Addr).(ByteCell); isCell {
+			m.storeByte(bc, m.get(f, in.Val).(*Term))
+			break
+		}
 		p := m.get(f, in.Addr).(Ptr)
 		m.store(p, m.getRaw(f, in.Val))
 	case *ssa.TypeAssert:
 		f.env[in] = m.typeAssert(in, m.get(f, in.X))
 	case *ssa.Go:
 		panic(m.unsupported("go statement (use verifrt.Spawn in harnesses)"))
-	case *ssa.Select, *ssa.Send, *ssa.MakeChan:
+	case *ssa.Select:
+		if th.id == 0 || !in.Blocking {
+			panic(m.unsupported("select on the harness's main thread / non-blocking select"))
+		}
+		m.note("a goroutine parked forever on a select")
+		th.stack = nil
+		th.done = true
+		return
+	case *ssa.Send, *ssa.MakeChan:
 		panic(m.unsupported("channel operation %T", instr))
 	default:
 		panic(m.unsupported("instruction %T", instr))
@@ -898,6 +922,13 @@ func (m *Machine) posOf(in ssa.Instruction, f *Frame) string {
 func (m *Machine) unop(in *ssa.UnOp, x Value) Value {
 	switch in.Op {
 	case token.MUL:
+		if bc, isCell := x.(ByteCell); isCell {
+			if m.Domain == DomString {
+				return m.strIndex(m.current(bc.B), bc.I)
+			}
+			m.weak = appendUniq(m.weak, []string{"a single byte read from opaque bytes"}, 20)
+			return App("uf.weak.byteAt", SBV(8), m.current(bc.B), bc.I)
+		}
 		p, ok := x.(Ptr)
 		if !ok {
 			panic(m.unsupported("load through %T", x))
@@ -1220,7 +1251,12 @@ func (m *Machine) indexAddr(x, idx Value, xt types.Type) Value {
 		np[len(a.Path)] = i
 		return Ptr{O: a.O, Path: np}
 	case ByteSlice:
-		panic(m.unsupported("byte-level addressing into opaque []byte"))
+		// &b[i] of an opaque []byte: a byte cell (bounds-checked now, like Go's IndexAddr)
+		it := BVResize(idx.(*Term), 64, true)
+		if !m.branch("byteindex.inrange", And(Not(BVCmp("bvslt", it, BVC(64, 0))), BVCmp("bvult", it, m.bytesLen(a)))) {
+			panic(m.goPanic("index out of range (opaque []byte)"))
+		}
+		return ByteCell{B: a, I: it}
 	}
 	panic(m.unsupported("indexaddr on %T", x))
 }
